@@ -10,6 +10,9 @@
 import Fir.Model.Resizer
 import Fir.Proofs.StructLemmas
 import Fir.Proofs.IdealLemmas
+import Fir.Proofs.RowCursorLemmas
+import Mathlib.Algebra.Order.Floor.Ring
+import Mathlib.Order.Monotone.Basic
 
 namespace Fir.C11
 open Fir
@@ -37,6 +40,30 @@ theorem nearest_dims (src prev : Img) (cl ct cw ch : Float) :
 theorem nearest_no_alpha (p p' : PixT) (src prev : Img) (crop : Cropping) (a a' : Bool) :
     resizeModel p src prev ⟨.nearest, crop, a⟩ = resizeModel p' src prev ⟨.nearest, crop, a'⟩ :=
   Fir.Proofs.nearest_no_alpha p p' src prev crop a a'
+
+/-! ### the row loop of `resample_nearest` (forward-only iterator + cached row) against direct indexing -/
+
+open Fir.RowCursor in
+/-- the stateful loop (`src_rows.nth(req - next_row_y)`, cached `cur_row`, `next_row_y = req + 1`) hands
+    the destination rows exactly the requested source rows, in order, without ever hitting `break`, for
+    every non-decreasing sequence of requested rows inside the source - so `Fir.nearestPass`, which
+    indexes row `nearestRow y` directly, describes it -/
+theorem row_cursor_eq_direct (H : Nat) (reqs : List Nat) (hlt : ∀ r ∈ reqs, r < H) (hsorted : reqs.Pairwise (· ≤ ·)) :
+    run H (init (reqs.headD 0)) reqs = reqs :=
+  Fir.Proofs.row_cursor_eq_direct H reqs hlt hsorted
+
+/-- the requested rows `min(⌊y⌋, H-1)` are non-decreasing: `y += y_scale` with `y_scale ≥ 0` never
+    decreases under any monotone rounding that keeps representable values fixed -/
+theorem requested_rows_sorted (fl : ℚ → ℚ) (hfl : Monotone fl) (y : ℕ → ℚ) (step : ℚ) (hs : 0 ≤ step)
+    (hy : ∀ k, y (k + 1) = fl (y k + step)) (hfix : ∀ k, fl (y k) = y k) (maxY : ℕ) (k : ℕ) :
+    min ⌊y k⌋.toNat maxY ≤ min ⌊y (k + 1)⌋.toNat maxY := by
+  have h : y k ≤ y (k + 1) := by
+    rw [hy k, ← hfix k]
+    apply hfl
+    rw [hfix k]; linarith
+  exact min_le_min (Int.toNat_le_toNat (Int.floor_mono h)) (le_refl _)
+
+example : Fir.RowCursor.run 5 (Fir.RowCursor.init 1) [1, 1, 2, 4, 4] = [1, 1, 2, 4, 4] := by decide
 
 /-! ### the ideal coordinate (exact rationals) - what the float-noise clause is measured against.
     `Fir.Proofs.nearestIdeal l cw dw x = ⌊l + (x+½)·cw/dw⌋` is the coordinate the correspondence oracle
